@@ -230,6 +230,11 @@ func c08Eth(rec *mon.Recorder, rng *rand.Rand, seed int64, nClaims int) {
 			switch {
 			case present && rng.Intn(2) == 0:
 				value = trimToKind(stored, k.kind)
+			case present && rng.Intn(4) == 0:
+				// differs from the stored word only in its high-order bytes (where a short stored value has leading zeros)
+				value = trimToKind(stored, k.kind)
+				value[rng.Intn(len(value)/2)] ^= byte(1 + rng.Intn(255))
+				vcase = "high-order-bytes-changed"
 			case rng.Intn(3) == 0:
 				// value of the same key at another height
 				if o, ok := worlds[(wi+1)%3].Storage[string(k.path())]; ok {
@@ -436,6 +441,10 @@ func c08TM(rec *mon.Recorder, rng *rand.Rand, seed int64, nClaims int) {
 		switch {
 		case present && rng.Intn(2) == 0:
 			value = append([]byte{}, gt...)
+		case present && rng.Intn(4) == 0:
+			value = append([]byte{}, gt...)
+			value[rng.Intn(len(value)/2)] ^= byte(1 + rng.Intn(255))
+			vcase = "high-order-bytes-changed"
 		case rng.Intn(3) == 0:
 			if o, ok := snaps[(wi+1)%3][string(k.path())]; ok {
 				value, vcase = append([]byte{}, o...), "other-height-value"
